@@ -1547,6 +1547,13 @@ def c15(ctx):
             res.note(khash([case["resolver"], schema, ops]), bool(wdocs), {"cls": tag, "schema": schema, "ops": ops, "resolver": rspec})
             if not isinstance(im, list):
                 continue
+            # every document supplied in the store is served locally, whatever the spelling of its key
+            from urllib.parse import urlsplit as _us
+            supplied = set(_us(k).geturl() for k in store)
+            for u, ok in wi.log:
+                if _us(u).geturl() in supplied:
+                    res.fail("store-document-retrieved", "%s was supplied in the store, yet a retrieval was attempted" % u, case)
+                    break
             if cache_remote:
                 okf = collections.Counter(u for u, ok in wi.log if ok)
                 for u, n in okf.items():
